@@ -313,6 +313,21 @@ func evaluate(c tcase) (got observed, tags []string, fails []core.Failure, err e
 		}
 	}
 
+	// ---- oracle 1b: "with the original URI restored" also means the request line: whenever no
+	// subroute-level error routes ran, every handler (in particular those of the server's error
+	// routes) must see a RequestURI that agrees with the URL. (Subroute.ServeHTTP resumes with a
+	// shallow copy of the request whose RequestURI can be stale on the unchanged tree — that
+	// region is left out here and reported, not asserted.)
+	if !tset["subroute-errors-run"] && ok {
+		for _, e := range got.events {
+			if e.uri != "" {
+				fails = append(fails, fail("rules:request-uri-seen",
+					fmt.Sprintf("handler %d saw RequestURI %q next to URL path %q", e.id, e.uri, e.path)))
+				break
+			}
+		}
+	}
+
 	// ---- oracle 0: routing is a function of the configuration and the request — nothing is
 	// carried from one request to the next on the same server (per-request chain compilation,
 	// per-request group set)
